@@ -17,6 +17,8 @@ func d(p string, mt int64) fsmodel.Node {
 	return fsmodel.Node{Path: p, Kind: fsmodel.Dir, Perm: 0755, Mtime: mt}
 }
 
+var extraTrees = map[string]func() fsmodel.Tree{}
+
 // Trees is the registry of named scenario trees.
 func Tree(name string) fsmodel.Tree {
 	var t fsmodel.Tree
@@ -57,8 +59,51 @@ func Tree(name string) fsmodel.Tree {
 			t = append(t, f(fmt.Sprintf("s%d", i), 30+i, sz, t1+int64(i)))
 		}
 	default:
+		if g, ok := extraTrees[name]; ok {
+			t = g()
+			break
+		}
 		panic("unknown tree " + name)
 	}
 	t.Sort()
 	return t
+}
+
+func init() {
+	extraTrees["c7src"] = func() fsmodel.Tree {
+		t := fsmodel.Tree{f("a", 1, 5, t1), d("d", t1+1), f("d/b", 2, 3, t1+2), f("e", 3, 0, t1+3),
+			{Path: "h", Kind: fsmodel.File, Perm: 0644, Mtime: t1, Data: fsmodel.Content(1, 5), HL: 1},
+			{Path: "l", Kind: fsmodel.Symlink, Perm: 0777, Mtime: t1 + 4, Link: "a"},
+			{Path: "p", Kind: fsmodel.Fifo, Perm: 0600, Mtime: t1 + 5},
+			f("z", 4, 40000, t1+6)}
+		t[0].HL = 1
+		return t
+	}
+	extraTrees["c7tiny"] = func() fsmodel.Tree {
+		t := Tree("c7src")
+		for i := range t {
+			if t[i].Path == "z" {
+				t[i].Data = fsmodel.Content(4, 7)
+			}
+		}
+		return t
+	}
+	extraTrees["c7same"] = func() fsmodel.Tree { return Tree("c7src") }
+	extraTrees["c7diff"] = func() fsmodel.Tree {
+		return fsmodel.Tree{f("a", 1, 5, t1+100), d("d", t1+1), f("d/b", 2, 3, t1+2), f("z", 5, 39999, t1+6), f("stale", 6, 4, t1)}
+	}
+	extraTrees["c7swap"] = func() fsmodel.Tree {
+		return fsmodel.Tree{d("a", t1), f("a/x", 7, 4, t1), f("d", 8, 2, t1), f("l", 9, 3, t1), d("p", t1), f("p/q", 10, 1, t1)}
+	}
+	extraTrees["c7meta"] = func() fsmodel.Tree {
+		return fsmodel.Tree{f(".fsutil-metadata", 11, 4, t1), f("a", 12, 5, t1+1), f("b", 13, 6, t1+2)}
+	}
+	extraTrees["c7plain"] = func() fsmodel.Tree {
+		return fsmodel.Tree{f("a", 12, 5, t1+1), f("b", 13, 6, t1+2), d("c", t1), f("c/d", 14, 7, t1+3)}
+	}
+	extraTrees["c7plain2"] = func() fsmodel.Tree {
+		return fsmodel.Tree{f("a", 12, 5, t1+1), d("d", t1), f("d/b", 13, 6, t1+2), f("e", 14, 7, t1+3),
+			{Path: "p", Kind: fsmodel.Fifo, Perm: 0600, Mtime: t1 + 5}, f("z", 15, 9, t1+6)}
+	}
+	extraTrees["one5"] = func() fsmodel.Tree { return fsmodel.Tree{f("a", 1, 5, t1)} }
 }
